@@ -311,7 +311,13 @@ def finding_signature(pid, c, fail):
 
 # =============================================================================== per-property generators
 def g_c01(r, tier, env, Ls):
-    return gen_forcing(r, Ls, 400 if tier == "quick" else 6000)
+    cs = gen_forcing(r, Ls, 400 if tier == "quick" else 6000)
+    # the same kind of cases through the flat-storage model (whole AsVector(), padding lanes included)
+    for c in gen_forcing(r, Ls, 150 if tier == "quick" else 2000):
+        c.line = "forcingflat" + c.line[len("forcing"):]
+        c.kind = "forcingflat"; c.oracle = None; c.tags.append("flat")
+        cs.append(c)
+    return cs
 
 def g_c02(r, tier, env, Ls):
     return gen_jacobian(r, Ls, 400 if tier == "quick" else 6000)
